@@ -575,6 +575,31 @@ impl ThreadLocalActorSpawner {
     }
 }
 
+/// Verification hook (feature `verif`, add-only).
+#[cfg(all(feature = "verif", not(feature = "async-std"), not(target_arch = "wasm32")))]
+impl ThreadLocalActorSpawner {
+    /// Run a task on the spawner's thread that yields `yields` times (every other runnable
+    /// task of that thread gets as many turns) and wait for it: a deterministic way for a
+    /// harness on another thread to let the spawner's thread settle. Returns `false` if the
+    /// spawner is gone.
+    pub async fn verif_barrier(&self, yields: usize) -> bool {
+        let r = self
+            .spawn(
+                Box::new(move || {
+                    Box::pin(async move {
+                        for _ in 0..yields {
+                            tokio::task::yield_now().await;
+                        }
+                        Err(SpawnErr::StartupFailed("verif barrier".into()))
+                    })
+                }),
+                None,
+            )
+            .await;
+        matches!(r, Err(SpawnErr::StartupFailed(ref e)) if e.to_string() == "verif barrier")
+    }
+}
+
 impl ActorCell {
     /// Spawn an actor of the given type as a thread-local child of this actor, automatically starting the actor.
     /// This [ActorCell] becomes the supervisor of the child actor.
